@@ -25,6 +25,7 @@ import (
 	"math"
 	"regexp"
 	"sort"
+	"strings"
 
 	"github.com/lindb/roaring"
 
@@ -206,8 +207,12 @@ func (b *TrieBucket) Suggest(prefix string, limit int) (rs []string) {
 
 // FindValuesByRegexp returns values by regexp expression.
 func (b *TrieBucket) FindValuesByRegexp(rp *regexp.Regexp, ids []uint32) []uint32 {
-	literalPrefix, _ := rp.LiteralPrefix()
-	literalPrefixByte := strutil.String2ByteSlice(literalPrefix)
+	var literalPrefixByte []byte
+	if strings.HasPrefix(rp.String(), "^") {
+		// the literal prefix of a match is a prefix of the key only when the expression is anchored at the start
+		literalPrefix, _ := rp.LiteralPrefix()
+		literalPrefixByte = strutil.String2ByteSlice(literalPrefix)
+	}
 	for _, kv := range b.kvs {
 		itr := kv.tree.NewPrefixIterator(literalPrefixByte)
 		for itr.Valid() {
